@@ -1,3 +1,7 @@
 (* property runners register themselves here at module initialisation *)
 let table : (string, string -> string list -> out_channel -> unit) Hashtbl.t = Hashtbl.create 32
 let register (prop : string) (f : string -> string list -> out_channel -> unit) = Hashtbl.replace table prop f
+
+(* optional: printers of a case as a Gallina Example (extraction cross-check inside Coq) *)
+let coq_table : (string, string * (int -> string list -> out_channel -> unit)) Hashtbl.t = Hashtbl.create 8
+let register_coq (prop : string) (f : string * (int -> string list -> out_channel -> unit)) = Hashtbl.replace coq_table prop f
